@@ -51,6 +51,9 @@ def brute(Cs):
     return float(best), P, n
 
 
+_FLAG_TURN = [0]
+
+
 def run_case(case, ctx):
     import tensorly as tl
     from tensorly.metrics import congruence_coefficient, correlation_index
@@ -108,7 +111,10 @@ def run_case(case, ctx):
         a1, a2 = (F1[0], F2[0]) if single else (list(F1), list(F2))
         desc = {"gen": g, "rows": rows, "rank": R, "absolute": absolute, "dtype": dt, "single": single, "sharing": sharing}
         ctx.count("sharing/" + sharing)
-        score, perm = congruence_coefficient(a1, a2, absolute_value=absolute)
+        # the flag as a caller's arithmetic produces it (a NumPy boolean from a comparison, 0/1)
+        _FLAG_TURN[0] += 1
+        absolute_arg = ([True, np.True_, 1, True, np.bool_(True)] if absolute else [False, np.False_, 0, False, np.bool_(False)])[_FLAG_TURN[0] % 5]
+        score, perm = congruence_coefficient(a1, a2, absolute_value=absolute_arg)
         Cs = [cos_matrix(x, y, absolute) for x, y in zip(F1, F2)]
         best, Pm, n_enum = brute(Cs)
         ctx.count("matchings_enumerated", n_enum)
@@ -226,6 +232,18 @@ def run_case(case, ctx):
             if got.shape != np.shape(want) or not np.allclose(got, want, rtol=0, atol=lim):
                 ctx.violation("C20:%s:definition:axis-%s" % (name, "none" if axis is None else "int"), "%s(axis=%r) = %r, definition gives %r" % (name, axis, got, want), desc)
         ctx.nontriv(dict(desc, h=float(np.sum(y))))
+        if rs.rand() < 0.2:
+            # half-precision measurements, many of them, with errors of a few units: the mean of the squares is a small number even
+            # though their sum is beyond the format's range
+            nbig = int(rs.randint(1500, 4000))
+            e16 = (rs.standard_normal(nbig) * float(gen.choice(rs, [4.0, 8.0]))).astype(np.float16)
+            y16 = (rs.standard_normal(nbig) * 3).astype(np.float16)
+            p16 = (y16.astype(np.float32) + e16.astype(np.float32)).astype(np.float16)
+            want_mse = float(np.mean((y16.astype(np.float64) - p16.astype(np.float64)) ** 2))
+            ctx.count("half_precision_error_metrics")
+            for nm_, got_, want_ in (("MSE", mreg.MSE(y16, p16), want_mse), ("RMSE", mreg.RMSE(y16, p16), np.sqrt(want_mse))):
+                if not np.isfinite(float(got_)) or abs(float(got_) - want_) > 2e-2 * want_:
+                    ctx.violation("C20:%s:definition:half-precision" % nm_, "%s of %d half-precision values = %r, definition gives %r" % (nm_, nbig, float(got_), want_), dict(desc, n=nbig))
     elif g == "leverage":
         n, r = int(rs.randint(1, 9)), int(rs.randint(1, 5))
         M = gen.arr(rs, [n, r], dt, gen.choice(rs, ["gauss", "int", "scaled"]))
